@@ -15,14 +15,23 @@ def distance_cases(chk):
             for r in rows:
                 r["w"] = 20 if r["a"] == r["b"] else 1
         cs.append({"edges": es, "jd": jd, "tops": tops, "target": tg, "limit": 800, "search": -1, "rng": ("seed", rng.randrange(1 << 30)),
-                   "watchdog": 120, "wrap": False, "distance": True})
+                   "watchdog": 120, "wrap": False, "distance": True, "family": "assortative-many-classes"})
+    # two topologies whose names are not in alphabetical order (the joint-degree slot of a topology is its position in the name list)
+    for i in range(6 if chk.tier == "thorough" else 3):
+        es, jd, tops = R.clean_network(rng, 60, [3, 2], 0.9)
+        tg = R.make_target(rng, es, jd, tops, "assort")
+        for rows in tg:
+            for r in rows:
+                r["w"] = 20 if r["a"] == r["b"] else 1
+        cs.append({"edges": es, "jd": jd, "tops": tops, "target": tg, "limit": 300, "search": -1, "rng": ("seed", rng.randrange(1 << 30)),
+                   "watchdog": 40, "wrap": False, "distance": True, "family": "names-not-alphabetical"})
     # two degree classes and a DISASSORTATIVE full-support target: the only useful moves turn an a-a and a b-b edge into two a-b edges
     for i in range(12 if chk.tier == "thorough" else 4):
         es, jd, tops = R.two_class_network(rng)
         ka, kb = sorted({j[0] for j in jd})
         tg = [[{"a": [x - 1], "b": [y - 1], "w": 18 if x != y else 2} for x in (ka, kb) for y in (ka, kb)]]
         cs.append({"edges": es, "jd": jd, "tops": tops, "target": tg, "limit": 400, "search": -1, "rng": ("seed", rng.randrange(1 << 30)),
-                   "watchdog": 60, "wrap": False, "distance": True, "labels": ["id", "shift"][i % 2]})
+                   "watchdog": 60, "wrap": False, "distance": True, "labels": ["id", "shift"][i % 2], "family": "two-classes-disassortative"})
     return cs
 
 
@@ -30,7 +39,7 @@ def run(chk):
     traces, verdicts = c11.run(chk, "C12")
     # (c) end-to-end: a full-support assortative target that differs from the random initial mixing
     dts = [R.execute(c) for c in distance_cases(chk)]
-    dts = [t for t in dts if not t["timeout"] and not t["raised"]]
+    dts = [t for t in dts if not t["raised"]]          # (a run stopped by the watchdog is judged on the graph it had reached)
     before = len(chk.violations)
     vs = chk.judge("RewiringTrace", "RewiringTrace.cfg", dts, label="C12 distance", env={"PROPERTY": "C12"}, key_fn=R.key_fn,
                    heap="3g", parallel=7)
@@ -38,11 +47,26 @@ def run(chk):
     chk.extra["distance_runs"] = len(dts)
     chk.extra["distance_runs_not_smaller"] = len(bad)
     metro = chk.extra.get("metropolis_mismatches", 0)
-    # statistical clause: a single unlucky seed cannot raise an alarm (DESIGN.md C12): it counts only when the Metropolis rule
-    # also disagrees with the model or the distance fails to drop on a majority of the seeds
-    if bad and not (metro > 0 or 2 * len(bad) > len(dts)):
-        chk.violations[before:] = [x for x in chk.violations[before:] if "distance_to_target_not_smaller" not in x["clause"]]
-        chk.not_decided.append("distance decrease failed on %d of %d seeds (below the majority threshold, Metropolis rule conforms): statistical, not reported" % (len(bad), len(dts)))
+    # statistical clause: a single unlucky seed cannot raise an alarm (DESIGN.md C12).  Each family of distance runs (same
+    # construction, different seeds) counts on its own: it is reported when the Metropolis rule also disagrees with the model or
+    # when the distance fails to drop on a majority of that family's seeds
+    fam_of = {i + 1: t["case"].get("family", "?") for i, t in enumerate(dts)}
+    fams = {}
+    for i, t in enumerate(dts):
+        fams.setdefault(fam_of[i + 1], [0, 0])[0] += 1
+    for v in bad:
+        fams[fam_of[v["tid"]]][1] += 1
+    quiet = {f for f, (n_, b_) in fams.items() if b_ and not (metro > 0 or 2 * b_ > n_)}
+    if quiet:
+        keep = []
+        for x in chk.violations[before:]:
+            fam = (x.get("trace") or {}).get("case", {}).get("family")
+            if "distance_to_target_not_smaller" in x["clause"] and fam in quiet:
+                continue
+            keep.append(x)
+        chk.violations[before:] = keep
+        chk.not_decided.append("distance decrease failed on a minority of the seeds of %s (Metropolis rule conforms): statistical, not reported" % sorted(quiet))
+    chk.extra["distance_families"] = {f: {"runs": n_, "not_smaller": b_} for f, (n_, b_) in fams.items()}
     chk.assumptions += ["'approaches the target' = (stepwise Metropolis identity recomputed by TLC on every recorded call) + (TLC-checked ratio = stationary-weight ratio on the model) + (seeded distance decrease, majority of seeds; statistical)",
                         "TLC shows the chain is NOT reversible move by move (focal vertex is always the smaller end point), so exact detailed balance is not claimed"]
 
